@@ -130,29 +130,25 @@ def false_issue_signature(m, issue, vi):
     elif '__future__' in msg:
         dec = [t for t in tags if t.startswith('first-statement-is-')]
     elif 'nonlocal' in msg or 'global' in msg:
-        dec = list(scope)
-        name = None
-        try:
-            leaf = m.get_leaf_for_position(issue.start_pos, include_prefixes=True)
-        except ValueError:
-            leaf = None
-        # the name the message talks about
+        dec = []
         mm = re.search(r"'([^']*)'", msg)
         name = mm.group(1) if mm else None
         if name == '__class__':
             dec.append('name=__class__')
         if name and ('prior to' in msg or 'assigned to before' in msg):
-            # classify the earlier occurrences of that name: are they references at all?
+            # classify the earlier occurrences of that name: are they references/assignments CPython counts?
             kinds = set()
             l = m.get_first_leaf()
             while l is not None and l.start_pos < issue.start_pos:
                 if l.type == 'name' and l.value == name:
                     p = l.parent
-                    if p.type == 'dotted_name' and p.children[0] is not l:
+                    imp = l.search_ancestor('import_name', 'import_from')
+                    if p.type == 'dotted_name' and p.children[0] is not l and imp is not None and imp.type == 'import_name':
                         kinds.add('earlier-use-is-dotted-import-tail')
-                    elif p.type in ('dotted_name', 'import_from') and p.get_first_leaf().get_previous_leaf() is not None and \
-                            _in_from_module_part(l):
+                    elif imp is not None and imp.type == 'import_from' and _in_from_module_part(l):
                         kinds.add('earlier-use-is-from-module-part')
+                    elif imp is not None:
+                        kinds.add('earlier-use-is-import-binding')
                     elif p.type == 'argument' and p.children[0] is l and len(p.children) > 1 and p.children[1] == '=':
                         kinds.add('earlier-use-is-keyword-argument-name')
                     elif p.type == 'trailer':
@@ -161,6 +157,25 @@ def false_issue_signature(m, issue, vi):
                         kinds.add('earlier-use-is-reference')
                 l = l.get_next_leaf()
             dec += sorted(kinds)
+        elif name and 'no binding' in msg and name != '__class__':
+            # is the name bound in an enclosing function only by a def/class statement?
+            leaf = leaf_starting_at(m, issue.start_pos)
+            n = leaf
+            found = False
+            depth = 0
+            while n is not None:
+                if n.type == 'funcdef':
+                    depth += 1
+                    if depth >= 1:
+                        for sub in nodes_preorder(n):
+                            if sub.type in ('funcdef', 'classdef') and sub is not n and sub.name.value == name:
+                                found = True
+                        if n.name.value == name and depth >= 1 and n.parent is not None and n.search_ancestor('funcdef') is not None:
+                            found = True
+                n = n.parent
+            dec += scope + (['bound-by-def-or-class-statement-in-enclosing-function'] if found else [])
+        else:
+            dec += scope
     else:
         dec = scope + [t for t in tags if t in ('in-fstring', 'keyword-argument-name', 'in-import')]
         if 'starred' in msg or 'assign' in msg or 'delete' in msg:
@@ -214,7 +229,7 @@ class C12(Prop):
 
     def strategy(self, tier):
         kinds = ('repo', 'stdlib3.12') if tier == 'quick' else ('repo', 'stdlib3.12', 'stdlib3.8')
-        return st.fixed_dictionaries({'code': V.candidates(kinds), 'version': T.version()})
+        return V.versioned_candidates(kinds)
 
     def enumerate(self, tier, seed):
         for vi, v in enumerate(VERSIONS):
